@@ -25,7 +25,8 @@ CONFIG = dict(
     required_counters=("steps_compared", "observable_edits"),
 )
 
-EDITS = ["insert_mid", "insert_front", "insert_before_stop", "set_int", "set_slice", "del_int", "del_slice",
+EDITS = ["extend_failing", "iadd_failing", "set_slice_failing",
+         "insert_mid", "insert_front", "insert_before_stop", "set_int", "set_slice", "del_int", "del_slice",
          "append", "extend", "iadd", "pop", "pop_i", "remove", "reverse", "clear_refill",
          "insert_python_first", "insert_python_last", "insert_python_replace", "append_python",
          "insert_magic_int", "insert_python_obj", "insert_fn_call"]
@@ -72,7 +73,20 @@ def apply_edit(f, p, name, rng, pool, original):
     n = len(p)
     pick = lambda: rng.choice(pool)  # noqa: E731
     one = lambda: rng.choice(pick())  # noqa: E731
-    if name == "insert_mid":
+    def failing(k):
+        ops = pick() + pick()
+        for j, op in enumerate(ops):
+            if j >= k:
+                raise RuntimeError("vp: iterable failed half-way through the edit")
+            yield op
+    if name == "extend_failing":
+        p.extend(failing(rng.randint(1, 2)))
+    elif name == "iadd_failing":
+        p += failing(rng.randint(1, 2))
+    elif name == "set_slice_failing":
+        i = rng.randint(0, n)
+        p[i:i + 1] = failing(rng.randint(1, 2))
+    elif name == "insert_mid":
         p.insert(rng.randint(0, n), one())
     elif name == "insert_front":
         p.insert(0, one())
